@@ -170,6 +170,7 @@ def run(chk: Check) -> None:
 
     run_tuple_siblings(chk, ix)
     run_cache_writers(chk, ix)
+    run_class_object_protocol_checks(chk, ix)
 
     # ---------------- R08.2
     r2 = chk.rule("R08.2", "for every Type subclass the attributes hashed by __hash__ are compared by __eq__ (equal values hash equal; the memo never misses or conflates because of an uncompared hashed field)", floor=15)
@@ -287,3 +288,47 @@ def run_cache_writers(chk: Check, ix) -> None:
             r4.violation(key, f.loc(c), f"the entry is recorded whatever {missing} is: with `{missing[0]}` set the function answers a different question about the same (left, right), and visit_instance later returns that answer for the instance question (the result of is_subtype depends on what was checked before)")
         else:
             r4.ok(key, f.loc(c), f"question-changing parameters {changing} are excluded by a test on every path to the record")
+
+
+def run_class_object_protocol_checks(chk: Check, ix) -> None:
+    """R08.5: a protocol check about a class object says so."""
+    r5 = chk.rule("R08.5", "is_protocol_implementation(left, P) asks whether *instances* of left implement P unless class_obj=True is passed; wherever the first argument is the item of a TypeType (`t.item`, or a local bound to it) or the instance type taken from a type object (`get_instance_type(...)`), the question is about the class object, so class_obj=True is passed: without it join(type[C], P) = P although type[C] is not a subtype of P (the join is no upper bound), and subtype answers about class objects are wrong", floor=2)
+    n = 0
+    for q, f in sorted(ix.functions.items()):
+        mn = f.module.name
+        if f.parent is not None or not mn.startswith("mypy.") or ".test" in mn:
+            continue
+        calls = [c for c in ast.walk(f.node) if isinstance(c, ast.Call) and call_name(c) == "is_protocol_implementation" and c.args]
+        if not calls:
+            continue
+        # locals bound to a TypeType item / an instance type of a type object
+        cls_locals: set[str] = set()
+        for a in ast.walk(f.node):
+            if isinstance(a, ast.Assign) and len(a.targets) == 1 and isinstance(a.targets[0], ast.Name):
+                v = a.value
+                if (isinstance(v, ast.Attribute) and v.attr == "item") or (isinstance(v, ast.Call) and call_name(v) == "get_instance_type"):
+                    cls_locals.add(a.targets[0].id)
+        grow = True
+        while grow:
+            grow = False
+            for a in ast.walk(f.node):
+                if isinstance(a, ast.Assign) and len(a.targets) == 1 and isinstance(a.targets[0], ast.Name) and a.targets[0].id not in cls_locals:
+                    if any(isinstance(x, ast.Name) and x.id in cls_locals for x in ast.walk(a.value)) and isinstance(a.value, (ast.Name, ast.Call, ast.Attribute)):
+                        if isinstance(a.value, ast.Call) and call_name(a.value) not in ("get_proper_type", "cast"):
+                            continue
+                        cls_locals.add(a.targets[0].id)
+                        grow = True
+        for c in calls:
+            a0 = c.args[0]
+            about_class = (isinstance(a0, ast.Attribute) and a0.attr == "item") or (isinstance(a0, ast.Name) and a0.id in cls_locals) or (isinstance(a0, ast.Call) and call_name(a0) == "get_instance_type")
+            if not about_class:
+                continue
+            n += 1
+            kw = {k.arg: k.value for k in c.keywords}
+            key = f"{q}: is_protocol_implementation({norm(a0)}, ...) about a class object passes class_obj=True"
+            if isinstance(kw.get("class_obj"), ast.Constant) and kw["class_obj"].value is True:
+                r5.ok(key, f.loc(c))
+            else:
+                r5.violation(key, f.loc(c), f"`{norm(a0)}` is what a type[...] / type object stands for, but the call asks whether its instances implement the protocol: a class whose instances have the members (and whose class object does not) is treated as implementing it")
+    if n < 2:
+        raise AnalysisError(f"only {n} class-object protocol checks found")
